@@ -3,7 +3,7 @@ CONSTANTS
   TxFields = {"execer", "payload", "signature", "fee", "expire", "nonce", "to", "groupCount", "header", "next", "chainID"}
   SigFields = {"ty", "pubkey", "signature"}
   MsgFields = {"signature"}
-  Muts = {"flip", "zero", "ext1", "ext32", "trunc"}
+  Muts = {"flip", "flip0", "zero", "ext1", "ext32", "trunc"}
   SigTypes = {"secp256k1", "ed25519", "sm2", "secp256r1", "secp256k1eth", "none"}
   OffTypes = {"none"}
   GatedTypes = {"ed25519", "sm2"}
